@@ -366,6 +366,18 @@ impl Player {
                     Err(e) => res_err(&e),
                 }
             }
+            // a save from a slot with one field damaged (C09: a rejected load must change nothing)
+            "loadbad" => {
+                let Some(t) = self.slots.get(&s(1)).cloned() else {
+                    return json!({"r": "badop"});
+                };
+                let key = format!("\"{}\":", s(2));
+                let bad = t.replace(&key, &format!("\"{}\":\"zero\",\"x-{}\":", s(2), s(2)));
+                match story.load_state(&bad) {
+                    Ok(()) => res_ok(J::Null),
+                    Err(e) => res_err(&e),
+                }
+            }
             "loadtext" => match story.load_state(&s(1)) {
                 Ok(()) => res_ok(J::Null),
                 Err(e) => res_err(&e),
